@@ -16,12 +16,24 @@
 // Section C (probe, not an oracle): a new FIRST value of a closed enum used as a field type
 // without explicit default; the rule ids reported for v2/FILE are recorded in stats.json under
 // extra.head_insert_enum_value_reports.
+//
+// Section D (large images): bufprotosource.NewFiles converts the files of an image in parallel
+// CHUNKS of len/thread.Parallelism() files once a chunk would hold >= 8 files, and whatever does
+// not fill a chunk goes into a remainder chunk.  The jobs of this section run in their own phases
+// under thread.SetParallelism(2) and (3) (restored afterwards): a schema of n0 = k*P files
+// (16..27) and an additive chain that adds files one by one (n0+1, n0+2: non-multiples of P, so a
+// remainder chunk exists) and edits inside existing files; the images are handed over in a
+// PERMUTED Files() order.  Every later version against every earlier one and self pairs must be
+// clean under all categories x versions; the reversed pairs (the big image with MORE files on the
+// against side: files deleted) and one pair with a planted breaking edit must respect
+// FILE >= PACKAGE >= WIRE_JSON >= WIRE; every pair is a `pair` line for the Lean model.
 package main
 
 import (
 	"fmt"
 	"sort"
 
+	"github.com/bufbuild/buf/private/pkg/thread"
 	"github.com/bufbuild/verifharness/internal/hx"
 	sg "github.com/bufbuild/verifharness/internal/schemagen"
 )
@@ -277,6 +289,148 @@ func hierarchyJob(run *hx.Run, root *hx.Rand, i int, rn *sg.Runner) *sg.Result {
 	return res
 }
 
+// checkHierarchy: per version, a stricter category that is clean implies the next laxer one is.
+func checkHierarchy(run *hx.Run, job int, res *sg.Result, pe *sg.PairEval, cur, prev *sg.Compiled, note string) {
+	for _, v := range sg.Versions {
+		for ci := 1; ci < len(strictOrder); ci++ {
+			strict, cat := strictOrder[ci-1], strictOrder[ci]
+			as := pe.Sets[v.Name+"/"+cat]
+			if len(pe.Sets[v.Name+"/"+strict]) == 0 && len(as) > 0 {
+				res.Fail(hx.OracleFailure{Class: "C04-hierarchy-" + v.Name + "-" + strict + "-" + cat,
+					What:  fmt.Sprintf("%s clean but %s reports %v", strict, cat, sg.AnnStrings(as)),
+					Input: input(cur, prev, note), Replay: replay(run, job)})
+			}
+		}
+	}
+}
+
+// evalAny evaluates a pair that need not be clean: correspondence line + hierarchy oracle.
+func evalAny(run *hx.Run, job int, res *sg.Result, rn *sg.Runner, cur, prev *sg.Compiled, class, note string) {
+	pe := sg.EvalPair(rn, cur, prev, false)
+	if pe.Err != nil {
+		res.Fail(hx.OracleFailure{Class: sg.ErrClass("C04", pe.Err), What: pe.ErrAt + ": " + pe.Err.Error(), Input: input(cur, prev, note), Replay: replay(run, job)})
+		return
+	}
+	res.Cases = append(res.Cases, sg.Case{In: pe.In, Out: pe.Out, Nontrivial: true, Note: note, Cur: cur.Sources, Prev: prev.Sources})
+	res.Count("pairs:" + class)
+	if pe.Total == 0 {
+		res.Count("pairs:clean")
+	} else {
+		res.Count("pairs:non-clean")
+	}
+	checkHierarchy(run, job, res, pe, cur, prev, note)
+}
+
+// bigSizes: (parallelism, initial number of files): n0 is a multiple of P with n0/P >= 8, so
+// NewFiles takes the chunked path with chunks of exactly n0/P files and no remainder; n0+1 and
+// n0+2 leave a remainder chunk.
+func bigSize(p int, r *hx.Rand) int {
+	if p == 2 {
+		return hx.Pick(r, []int{16, 16, 18, 20})
+	}
+	return hx.Pick(r, []int{24, 24, 27})
+}
+
+func bigJob(run *hx.Run, root *hx.Rand, i int, p int, rn *sg.Runner) *sg.Result {
+	res := sg.NewResult()
+	r := root.Fork(uint64(i))
+	if got := thread.Parallelism(); got != p {
+		res.Fail(hx.OracleFailure{Class: "harness-parallelism", What: fmt.Sprintf("thread.Parallelism() = %d, want %d", got, p), Replay: replay(run, i)})
+		return res
+	}
+	n0 := bigSize(p, r)
+	cache := sg.NewCache()
+	var addFile *sg.Op
+	for _, op := range sg.AdditiveOps {
+		if op.Name == "AddFile" {
+			addFile = op
+		}
+	}
+	type ver struct {
+		s    *sg.Schema
+		comp *sg.Compiled
+		op   string
+	}
+	compile := func(s *sg.Schema, k sg.Knobs) *sg.Compiled {
+		c, err := cache.Compile(sg.Render(s, k))
+		if err != nil {
+			res.Count("big:compile-error")
+			res.Samples = append(res.Samples, map[string]any{"big-compile-error": err.Error()})
+			return nil
+		}
+		// hand the image over in a permuted Files() order (half of the time)
+		if r.Bool() {
+			if rc, err := c.Reordered(r); err == nil {
+				res.Count("big:files-order-permuted")
+				return rc
+			}
+			res.Count("big:reorder-error")
+		}
+		return c
+	}
+	k := sg.PlainKnobs
+	s0 := sg.GenerateBig(r, n0)
+	c0 := compile(s0, k)
+	if c0 == nil {
+		return res
+	}
+	chain := []ver{{s0, c0, ""}}
+	// two file additions (n0+1, n0+2), with an edit inside an existing file in between
+	for _, what := range []string{"file", "inner", "file"} {
+		cur := chain[len(chain)-1].s
+		var nx *sg.Schema
+		name := "AddFile"
+		if what == "file" {
+			c := cur.Clone()
+			if _, ok := addFile.Apply(c, sg.Site{}, r); !ok {
+				continue
+			}
+			nx = c
+		} else {
+			s, op, _, _, ok := sg.ApplyRandom(cur, sg.AdditiveOps, r)
+			if !ok {
+				continue
+			}
+			nx, name = s, op.Name
+		}
+		comp := compile(nx, k)
+		if comp == nil {
+			continue
+		}
+		res.Count("op:" + name)
+		chain = append(chain, ver{nx, comp, name})
+	}
+	for _, v := range chain {
+		n := len(v.s.Files)
+		res.Count(fmt.Sprintf("big:P=%d:files=%d:chunk=%d:remainder=%d", p, n, n/p, n%(n/p)))
+	}
+	for hi := 1; hi < len(chain); hi++ {
+		for lo := 0; lo < hi; lo++ {
+			note := fmt.Sprintf("big P=%d %d->%d files: ", p, len(chain[lo].s.Files), len(chain[hi].s.Files))
+			for x := lo + 1; x <= hi; x++ {
+				note += chain[x].op + " "
+			}
+			evalClean(run, i, res, rn, chain[hi].comp, chain[lo].comp, "C04-additive-not-clean", note, true, r)
+		}
+	}
+	// self pairs: the longest version (remainder chunk on both sides) and the first
+	last := chain[len(chain)-1]
+	evalClean(run, i, res, rn, last.comp, last.comp, "C04-self-not-clean", fmt.Sprintf("big P=%d self %d files", p, len(last.s.Files)), false, r)
+	if rc, err := last.comp.Reordered(r); err == nil {
+		evalClean(run, i, res, rn, rc, last.comp, "C04-self-not-clean", fmt.Sprintf("big P=%d self, other Files() order", p), false, r)
+	}
+	// reversed: the bigger image on the against side (files deleted): hierarchy only
+	evalAny(run, i, res, rn, chain[0].comp, last.comp, "big-reversed", fmt.Sprintf("big P=%d reversed %d->%d files", p, len(last.s.Files), len(chain[0].s.Files)))
+	// a planted breaking edit somewhere in the big schema: hierarchy + correspondence
+	if s, op, _, _, ok := sg.ApplyRandom(last.s, sg.BreakingOps, r); ok {
+		if comp := compile(s, k); comp != nil {
+			res.Count("op:" + op.Name)
+			evalAny(run, i, res, rn, comp, chain[0].comp, "big-breaking", fmt.Sprintf("big P=%d breaking %s", p, op.Name))
+		}
+	}
+	return res
+}
+
 func probeJob(run *hx.Run, root *hx.Rand, i int, rn *sg.Runner) *sg.Result {
 	res := sg.NewResult()
 	r := root.Fork(uint64(i))
@@ -333,18 +487,33 @@ func main() {
 	// probe once, before the parallel jobs: which model dispatch matches this tree
 	run.Set("tree_has_package_last_element_fix", sg.TreeHasPackageFix())
 	root := hx.NewRand(run.Seed)
-	nChains := run.N(150, 1500)
-	nHier := run.N(260, 2600)
+	nChains := run.N(130, 1000)
+	nHier := run.N(230, 1700)
 	nProbe := run.N(40, 300)
-	sets := sg.RunJobs(run, nChains+nHier+nProbe, func(i int, rn *sg.Runner) *sg.Result {
+	nBig := run.N(5, 30) // per parallelism value; thorough in.txt stays < 200 MB
+	nSmall := nChains + nHier + nProbe
+	saved := thread.Parallelism()
+	phases := []sg.Phase{
+		{N: nSmall},
+		{N: nBig, Enter: func() { thread.SetParallelism(2) }, Leave: func() { thread.SetParallelism(saved) }},
+		{N: nBig, Enter: func() { thread.SetParallelism(3) }, Leave: func() { thread.SetParallelism(saved) }},
+	}
+	sets := sg.RunJobsPhases(run, phases, func(i int, rn *sg.Runner) *sg.Result {
 		switch {
 		case i < nChains:
 			return chainJob(run, root.Fork(1), i, rn)
 		case i < nChains+nHier:
 			return hierarchyJob(run, root.Fork(2), i, rn)
+		case i < nSmall:
+			return probeJob(run, root.Fork(3), i, rn)
+		case i < nSmall+nBig:
+			return bigJob(run, root.Fork(4), i, 2, rn)
 		}
-		return probeJob(run, root.Fork(3), i, rn)
+		return bigJob(run, root.Fork(4), i, 3, rn)
 	})
+	if got := thread.Parallelism(); got != saved {
+		panic(fmt.Sprintf("thread.Parallelism() not restored: %d != %d", got, saved))
+	}
 	for k, v := range sets {
 		run.Set(k, v)
 	}
